@@ -378,6 +378,8 @@ class SMC(Sampler):
             self._quantiles = np.concatenate((np.full((self.state['round']), None), quantiles))
         else:
             thresholds = np.concatenate((np.full((self.state['round']), None), thresholds))
+            # Do not keep using the quantiles of an earlier call on this sampler
+            self._quantiles = None
 
         self.objective.update(
             dict(
